@@ -27,10 +27,19 @@ const (
 	KReqString              // non-null, non-empty string written with PersistContext.SetRequiredString
 )
 
+// key returns the bucket key of the field.
+func (f Field) key() string {
+	if f.Key != "" {
+		return f.Key
+	}
+	return f.Name
+}
+
 type Field struct {
 	Name  string
 	Kind  Kind
-	Child bool // field belongs to the child store part (only meaningful for child specs)
+	Child bool   // field belongs to the child store part (only meaningful for child specs)
+	Key   string // bucket key the field is stored under (default: Name)
 }
 
 // Rec is the generic entity. F holds field values: nil = null; otherwise string, int64, int32,
@@ -106,49 +115,49 @@ func (s *strategy) FillEntity(e *Rec, b *boltz.TypedBucket) {
 func (s *strategy) fill(e *Rec, b *boltz.TypedBucket, f Field) {
 	switch f.Kind {
 	case KString, KReqString:
-		e.F[f.Name] = b.GetStringOrError(f.Name)
+		e.F[f.Name] = b.GetStringOrError(f.key())
 	case KStringP:
-		if v := b.GetString(f.Name); v != nil {
+		if v := b.GetString(f.key()); v != nil {
 			e.F[f.Name] = *v
 		} else {
 			e.F[f.Name] = nil
 		}
 	case KInt64P:
-		if v := b.GetInt64(f.Name); v != nil {
+		if v := b.GetInt64(f.key()); v != nil {
 			e.F[f.Name] = *v
 		} else {
 			e.F[f.Name] = nil
 		}
 	case KInt32P:
-		if v := b.GetInt32(f.Name); v != nil {
+		if v := b.GetInt32(f.key()); v != nil {
 			e.F[f.Name] = *v
 		} else {
 			e.F[f.Name] = nil
 		}
 	case KFloat64P:
-		if v := b.GetFloat64(f.Name); v != nil {
+		if v := b.GetFloat64(f.key()); v != nil {
 			e.F[f.Name] = *v
 		} else {
 			e.F[f.Name] = nil
 		}
 	case KBoolP:
-		if v := b.GetBool(f.Name); v != nil {
+		if v := b.GetBool(f.key()); v != nil {
 			e.F[f.Name] = *v
 		} else {
 			e.F[f.Name] = nil
 		}
 	case KTimeP:
-		if v := b.GetTime(f.Name); v != nil {
+		if v := b.GetTime(f.key()); v != nil {
 			e.F[f.Name] = *v
 		} else {
 			e.F[f.Name] = nil
 		}
 	case KStringList:
-		e.F[f.Name] = b.GetStringList(f.Name)
+		e.F[f.Name] = b.GetStringList(f.key())
 	case KMap:
-		e.F[f.Name] = b.GetMap(f.Name)
+		e.F[f.Name] = b.GetMap(f.key())
 	case KLinks:
-		e.F[f.Name] = b.GetStringList(f.Name)
+		e.F[f.Name] = b.GetStringList(f.key())
 	}
 }
 
@@ -175,65 +184,65 @@ func persistField(e *Rec, ctx *boltz.PersistContext, f Field) {
 	switch f.Kind {
 	case KString:
 		sv, _ := v.(string)
-		ctx.SetString(f.Name, sv)
+		ctx.SetString(f.key(), sv)
 	case KReqString:
 		sv, _ := v.(string)
-		ctx.SetRequiredString(f.Name, sv)
+		ctx.SetRequiredString(f.key(), sv)
 	case KStringP:
 		if v == nil {
-			ctx.SetStringP(f.Name, nil)
+			ctx.SetStringP(f.key(), nil)
 		} else {
 			sv := v.(string)
-			ctx.SetStringP(f.Name, &sv)
+			ctx.SetStringP(f.key(), &sv)
 		}
 	case KInt64P:
-		if ctx.ProceedWithSet(f.Name) {
+		if ctx.ProceedWithSet(f.key()) {
 			if v == nil {
-				ctx.Bucket.SetNil(f.Name)
+				ctx.Bucket.SetNil(f.key())
 			} else {
-				ctx.Bucket.SetInt64(f.Name, v.(int64), nil)
+				ctx.Bucket.SetInt64(f.key(), v.(int64), nil)
 			}
 		}
 	case KInt32P:
-		if ctx.ProceedWithSet(f.Name) {
+		if ctx.ProceedWithSet(f.key()) {
 			if v == nil {
-				ctx.Bucket.SetNil(f.Name)
+				ctx.Bucket.SetNil(f.key())
 			} else {
-				ctx.Bucket.SetInt32(f.Name, v.(int32), nil)
+				ctx.Bucket.SetInt32(f.key(), v.(int32), nil)
 			}
 		}
 	case KFloat64P:
-		if ctx.ProceedWithSet(f.Name) {
+		if ctx.ProceedWithSet(f.key()) {
 			if v == nil {
-				ctx.Bucket.SetNil(f.Name)
+				ctx.Bucket.SetNil(f.key())
 			} else {
-				ctx.Bucket.SetFloat64(f.Name, v.(float64), nil)
+				ctx.Bucket.SetFloat64(f.key(), v.(float64), nil)
 			}
 		}
 	case KBoolP:
-		if ctx.ProceedWithSet(f.Name) {
+		if ctx.ProceedWithSet(f.key()) {
 			if v == nil {
-				ctx.Bucket.SetNil(f.Name)
+				ctx.Bucket.SetNil(f.key())
 			} else {
-				ctx.Bucket.SetBool(f.Name, v.(bool), nil)
+				ctx.Bucket.SetBool(f.key(), v.(bool), nil)
 			}
 		}
 	case KTimeP:
 		if v == nil {
-			ctx.SetTimeP(f.Name, nil)
+			ctx.SetTimeP(f.key(), nil)
 		} else {
 			tv := v.(time.Time)
-			ctx.SetTimeP(f.Name, &tv)
+			ctx.SetTimeP(f.key(), &tv)
 		}
 	case KStringList:
 		lv, _ := v.([]string)
-		ctx.SetStringList(f.Name, lv)
+		ctx.SetStringList(f.key(), lv)
 	case KMap:
 		mv, _ := v.(map[string]interface{})
-		ctx.SetMap(f.Name, mv)
+		ctx.SetMap(f.key(), mv)
 	case KLinks:
 		lv, _ := v.([]string)
-		ctx.SetLinkedIds(f.Name, append([]string{}, lv...))
+		ctx.SetLinkedIds(f.key(), append([]string{}, lv...))
 	}
 }
 
